@@ -12,7 +12,7 @@ import re
 import threading
 from concurrent.futures import ThreadPoolExecutor
 
-from ..absmodel import Names
+from ..absmodel import resolve_col, Names
 from ..common import scratch_dir
 from ..dbproj import diff_schema, schema_of
 from ..djproj import Project
@@ -380,7 +380,7 @@ def rows_vs_reference(history, v0, v1, db_before, db_after):
             for fn, fs in ms['fields'].items():
                 if fs['ftype'] == 'M2M':
                     continue
-                col = as_dict(fs['attrs']).get('db_column') or (
+                col = resolve_col(as_dict(fs['attrs']).get('db_column'), names) or (
                     names.field(fn) + ('_id' if fs['ftype'] in ('FK', 'O2O') else ''))
                 row[fn] = r.get(col)
             rows.append(row)
@@ -527,6 +527,10 @@ def execute_history(hist, histories, oracles, keep_results=False, with_rows=Fals
                     rec['result'] = res
                 rec['events'] = res['events']
                 rec['db'] = res['post']['default']['db']
+                # what post_migrate listeners wrote about the project's models
+                rec['contenttypes'] = res['post']['default']['book'].get('contenttypes')
+                rec['pre_contenttypes'] = next((o_.get('contenttypes') for o_ in reversed(out)
+                                                if isinstance(o_, dict) and 'contenttypes' in o_), None)
                 if with_rows:
                     # rows present before this run must have survived it; then give every
                     # still-empty table its rows for the runs to come
